@@ -35,7 +35,7 @@ var ewFuncs = map[string]bool{
 	"ColumnWriter.writeBloomFilter": true,
 }
 
-var ewMethods = map[string]bool{"Write": true, "WriteString": true, "Encode": true, "ReadFrom": true}
+var ewMethods = map[string]bool{"Write": true, "WriteString": true, "Encode": true, "ReadFrom": true, "copySection": true}
 
 var ewKeyTest = regexp.MustCompile(`(encKey != nil|^key != nil$|w\.encryption != nil)`)
 
